@@ -2271,7 +2271,7 @@ iintShift(BInt r, BInt b, int n)
 
 		if (up) {
 			x0  = bp[i--] << k;
-			x0 |= h ? bp[i]   >> h : 0;
+			x0 |= (h && i >= 0) ? bp[i] >> h : 0;
 		}
 		else {
 			x0  = h ? bp[i]   >> h : 0;
